@@ -48,7 +48,7 @@ def run_one(sid, tier, demo, all_checks):
                 first = [l for l in q.stdout.splitlines() if l.startswith('  ') and 'sig=' in l][:1]
                 rows.append((sid, chk, 'caught', '%d sig(s), %.0fs %s' % (len(viol), time.time() - t0, first[0].strip()[:150] if first else '')))
             elif q.returncode == 0:
-                rows.append((sid, chk, 'MISSED', '%.0fs' % (time.time() - t0)))
+                rows.append((sid, chk, 'missed(recorded)' if meta.get('expected') == 'missed' else 'MISSED', '%.0fs' % (time.time() - t0)))
             else:
                 rows.append((sid, chk, 'rc=%d' % q.returncode, (q.stdout + q.stderr)[-300:].replace('\n', ' | ')))
     finally:
@@ -77,7 +77,7 @@ def main(argv):
     for sid in ids:
         for row in run_one(sid, tier, demo, all_checks):
             print('%-14s %-10s %-14s %s' % row, flush=True)
-            if row[2] not in ('caught', 'demo-fails') and not all_checks:
+            if row[2] not in ('caught', 'demo-fails', 'missed(recorded)') and not all_checks:
                 bad += 1
     return 1 if bad else 0
 
